@@ -251,12 +251,12 @@ def inferSchema (rows : List PV) : Option DType :=
 inductive VErr | nullability | wrongType | outOfRange | length
   deriving DecidableEq, Repr
 
-/-- `isinstance(obj, _acceptable_types[type])` for scalar types (`bool` is a subclass of `int`) -/
+/-- `type(obj) in _acceptable_types[type]` for scalar types (the exact class: a `bool`, although a subclass of `int`, is a
+value of BooleanType only) -/
 def acceptsScalar (a : Atom) (v : PV) : Bool :=
   match a, v with
   | .boolean, .bool _ => true
   | .byte, .int _ | .short, .int _ | .integer, .int _ | .long, .int _ => true
-  | .byte, .bool _ | .short, .bool _ | .integer, .bool _ | .long, .bool _ => true
   | .float, .float | .double, .float => true
   | .binary, .bytes => true
   | .date, .date | .date, .datetime => true
